@@ -520,6 +520,8 @@ VARIANTS = {
     "synkw": dict(tok=[["WS", r"\s+"], ["X", "!"], ["W1", "[a-c]"], ["d", "d"]], syn={"W1": "w"},
                   kw=[["w", "a", "a"], ["w", "b", "KB"]], skip=["WS", "X"],
                   T=["a", "KB", "w"], lex={"a": "a", "b": "KB", "c": "w"}, sep=" ", noise="!"),
+    "swap": dict(tok=[["SPACE", r"\s+"], ["a", "b"], ["b", "a"], ["c", "c"]], syn={}, kw=[], skip=None,
+                 T=["a", "b", "c"], lex={"b": "a", "a": "b", "c": "c"}, sep=" ", noise=""),
     "noskip": dict(tok=[["SPACE", r"\s+"], ["a", "a"], ["b", "b"], ["c", "c"]], syn={}, kw=[], skip=[],
                    T=["a", "b", "c"], lex={"a": "a", "b": "b", "c": "c"}, sep="", noise=""),
 }
@@ -778,7 +780,7 @@ def make_case(spec, var_name, words, texts, meta, diags=("prods", "suffix", "tab
 
 def gen_spec(rng, malformed_share=0.05, hidden_share=0.04, ll1_share=0.2):
     """-> (spec, variant name, meta)"""
-    var_name = rng.choice(["plain"] * 4 + ["syn", "kw", "synkw", "noskip"])
+    var_name = rng.choice(["plain"] * 4 + ["syn", "kw", "synkw", "noskip", "swap"])
     var = VARIANTS[var_name]
     T = list(var["T"])
     pool = list(rng.choice(NT_POOLS))
